@@ -210,6 +210,11 @@ def generate(rng, tier):
     cases = [gen_lime(rng, tier) for _ in range(70 if quick else 800)]
     cases += [gen_kshap(rng, tier) for _ in range(40 if quick else 400)]
     cases += [gen_kshap(rng, tier, F2=True) for _ in range(4 if quick else 20)]
+    for c in cases:
+        # re-use: a quarter of the multi-input cases first explain the SAME inputs in another order with the same
+        # explainer object (same shape, other content per position): the segmentation must follow the input
+        if c.get("maps") is not None and len(c["xs"]) >= 2 and rng.random() < 0.4:
+            c["warmup"] = True
     cases += [dict(stream="probs", F=F) for F in range(2, 13 if quick else 40)]
     cases += [dict(stream="sampler", F=rng.randint(2, 8), n=rng.randint(1, 12), seed=rng.randrange(1 << 30))
               for _ in range(20 if quick else 200)]
@@ -321,6 +326,11 @@ def run_lime_like(case, kshap):
         expl = Lime(model, batch_size=case["bs"], interpretable_model=est, map_to_interpret_space=make_map_fn(case, xs),
                     ref_value=ref, nb_samples=case["nb"], distance_mode=case["mode"], kernel_width=case["width"],
                     prob=case["prob"])
+    if case.get("warmup"):
+        expl.explain(np.roll(xs, 1, axis=0), np.roll(ts, 1, axis=0))
+        model.queries.clear()
+        est.calls.clear()
+        tf.random.set_seed(case["seed"])
     out = np.asarray(expl.explain(xs, ts))
     if list(out.shape) != expected_out_shape(case):
         raise AssertionError(f"explain returned shape {list(out.shape)}, expected {expected_out_shape(case)}")
